@@ -127,6 +127,20 @@ struct IdFormatter
 using LOut = nl::logger<record, IdFormatter, nl::sink::stdout_mt, nl::filter::null_filter>;
 using LErr = nl::logger<record, IdFormatter, nl::sink::StdErrThreaded, nl::filter::null_filter>;
 
+// a second logger type (other record, other formatter) on the same thread-safe sinks: in one program an application
+// logger and a component logger usually coexist, both writing to the one std::cout / std::cerr
+using record2 = nl::record<nl::message_attribute, nl::severity_attribute, nl::timestamp_attribute>;
+template <typename R>
+struct IdFormatter2
+{
+    std::string format(R& r)
+    {
+        return std::string(r.message());
+    }
+};
+using LOut2 = nl::logger<record2, IdFormatter2, nl::sink::stdout_mt, nl::filter::null_filter>;
+using LErr2 = nl::logger<record2, IdFormatter2, nl::sink::StdErrThreaded, nl::filter::null_filter>;
+
 template <typename L>
 static void log_one(int sev, const std::string& text)
 {
@@ -164,6 +178,7 @@ struct Config
     int sink = 0; // 0 stdout_mt, 1 StdErrThreaded
     std::vector<std::vector<Rec>> threads;
     int pattern = 0; // 1: each thread has three records; the first and the third are named streams with non-nested lifetimes
+                     // 2: threads with an odd number log through the second logger type (same sink type, same stream)
 };
 
 // record X is opened, record Y is opened, X is completed and closed, a whole record is logged, Y is completed and closed
@@ -197,6 +212,14 @@ static void body(int t, void* arg)
     }
     for (auto& r : c->threads[t])
     {
+        if (c->pattern == 2 && t % 2 == 1)
+        {
+            if (c->sink == 0)
+                log_one<LOut2>(r.sev, r.text);
+            else
+                log_one<LErr2>(r.sev, r.text);
+            continue;
+        }
         if (c->sink == 0)
             log_one<LOut>(r.sev, r.text);
         else
@@ -218,6 +241,13 @@ static std::vector<Config> configs()
         // particular bytes inside records: NUL (a C-string view would cut the record), high bytes, CR, tab, '%'
         cs.push_back({ sn + " 2x2 special bytes", sink, { { { 2, std::string("a\0b;", 4) }, { 5, "%s\t\r;" } }, { { 3, std::string("\xff\0\x80;", 4) }, { 2, "G;" } } } });
         cs.push_back({ sn + " 2x3 non-nested streams", sink, { { { 2, "ab;" }, { 2, "c;" }, { 2, "de;" } }, { { 2, "VW;" }, { 2, "X;" }, { 2, "YZ;" } } }, 1 });
+    }
+    // appended behind the older configurations (replay files name a configuration by its index)
+    for (int sink = 0; sink < 2; sink++)
+    {
+        std::string sn = sink ? "stderr_mt" : "stdout_mt";
+        cs.push_back({ sn + " 2x2 two logger types", sink, { { { 2, "a;" }, { 5, "bcd;" } }, { { 3, "EF;" }, { 2, "G;" } } }, 2 });
+        cs.push_back({ sn + " 3x1 two logger types", sink, { { { 2, "a1;" } }, { { 5, "BB22;" } }, { { 4, "c;" } } }, 2 });
     }
     return cs;
 }
